@@ -58,7 +58,11 @@ pub fn make_request(scenario: u32) -> (Request<Msg>, u64) {
 }
 
 fn sent_msg(id: u64, scenario: u32) -> Msg {
-    Msg { id, scenario, text: format!("héllo-{id}"), blob: (0..(id % 300) as usize).map(|i| (i * 7) as u8).collect(), poison: Poison(false) }
+    // scenario 1 carries a large message (150-250 KB, echoed back reversed): whatever the codecs
+    // keep between messages - scratch buffers, size hints - sees one big message followed by
+    // ordinary ones
+    let blob_len = if scenario == 1 { 150_000 + (id % 100_000) as usize } else { (id % 300) as usize };
+    Msg { id, scenario, text: format!("héllo-{id}"), blob: (0..blob_len).map(|i| (i * 7) as u8).collect(), poison: Poison(false) }
 }
 
 fn reply(m: &Msg) -> Msg {
